@@ -1,7 +1,888 @@
-//! C04 — not implemented yet.
+//! C04 — indexed region queries return exactly what a linear scan would (BAI, CSI, tabix), and the
+//! unmapped query returns the unplaced unmapped tail.
+//!
+//! Sub-checks
+//! * `files`      real files: G-sorted record set → BAM / bgzipped VCF / BCF written by noodles with a
+//!                block layout script → index by `bam::fs::index` (BAI), `bcf::fs::index` (CSI),
+//!                `vcf::fs::index` (tabix) or the public `Indexer::new(min_shift, depth)` in the same
+//!                read-tell-add loop (CSI, any geometry, on BAM and BCF) → every region queried with the
+//!                index in memory and with the index written to a file and read back.
+//!                Primary oracle: generator ground truth + `oracle::spans`. Secondary: scan + filter
+//!                with noodles' own span functions.
+//! * `synthetic`  index level, no files: the same record sets with synthetic consecutive chunks;
+//!                `BinningIndex::query` must cover the chunk of every record that intersects the region
+//!                (LinearIndex and BinnedIndex, in memory and after a write→read of the index bytes).
 
 use crate::engine::*;
+use crate::r#gen::sorted::{self, Geometry, RecSpec, Region, RegionSpec, SortedSet, Truth, VcfVersion};
+use crate::oracle::{bgzf_walk, binning, spans};
+use noodles_bam as bam;
+use noodles_bcf as bcf;
+use noodles_bgzf as bgzf;
+use noodles_core::{Position, region::Interval};
+use noodles_csi::{
+    self as csi, BinningIndex,
+    binning_index::{
+        Indexer,
+        index::reference_sequence::{
+            bin::Chunk,
+            index::{BinnedIndex, LinearIndex},
+        },
+    },
+};
+use noodles_sam as sam;
+use noodles_tabix as tabix;
+use noodles_vcf as vcf;
+use proptest::prelude::*;
+use serde::{Deserialize, Serialize};
+use std::io::Cursor;
+use std::path::PathBuf;
+use std::sync::atomic::{AtomicU64, Ordering};
+
+#[derive(Clone, Copy, Debug, Serialize, Deserialize, PartialEq, Eq)]
+pub enum Kind {
+    /// BAM + `bam::fs::index`
+    Bai,
+    /// BCF + `bcf::fs::index`
+    CsiBcf,
+    /// bgzipped VCF + `vcf::fs::index`
+    Tabix,
+    /// BAM + `Indexer::<BinnedIndex>::new(min_shift, depth)` in the `bam::fs::index` loop
+    CsiBam,
+    /// BCF + `Indexer::<BinnedIndex>::new(min_shift, depth)` in the `bcf::fs::index` loop
+    CsiBcfCustom,
+}
+
+#[derive(Clone, Debug, Serialize, Deserialize)]
+pub struct Case {
+    pub kind: Kind,
+    pub version: VcfVersion,
+    pub set: SortedSet,
+    pub regions: Vec<RegionSpec>,
+}
+
+static DEFAULT_ONLY: [Geometry; 1] = [Geometry::DEFAULT];
+
+fn kind_strategy() -> BoxedStrategy<Kind> {
+    prop_oneof![Just(Kind::Bai), Just(Kind::CsiBcf), Just(Kind::Tabix), Just(Kind::CsiBam), Just(Kind::CsiBcfCustom)].boxed()
+}
+
+fn version_strategy() -> BoxedStrategy<VcfVersion> {
+    prop_oneof![2 => Just(VcfVersion::V42), 3 => Just(VcfVersion::V43), 2 => Just(VcfVersion::V44), 1 => Just(VcfVersion::V45)].boxed()
+}
+
+fn files_strategy(tier: Tier) -> BoxedStrategy<Case> {
+    let max_recs = tier.pick(40usize, 400usize);
+    (kind_strategy(), version_strategy(), 0u8..10)
+        .prop_flat_map(move |(kind, version, size_class)| {
+            let geoms: &'static [Geometry] = match kind {
+                Kind::CsiBam | Kind::CsiBcfCustom => &sorted::GEOMETRIES,
+                _ => &DEFAULT_ONLY,
+            };
+            // most files are small; a tenth use the full record budget
+            let n = if size_class == 0 { max_recs } else { max_recs.min(24) };
+            (Just(kind), Just(version), sorted::sorted_set(geoms, n))
+        })
+        .prop_flat_map(|(kind, version, set)| {
+            let g = set.geom;
+            (Just(kind), Just(version), Just(set), sorted::region_specs(g, 12))
+        })
+        .prop_map(|(kind, version, set, regions)| Case { kind, version, set, regions })
+        .boxed()
+}
+
+// ------------------------------------------------------------------------------------------------
+// helpers
+// ------------------------------------------------------------------------------------------------
+
+fn e1(sig: &str, msg: String) -> Vec<Fail> {
+    vec![Fail::new(sig, msg)]
+}
+
+fn pos(n: u64) -> Position {
+    Position::new(n as usize).unwrap_or(Position::MIN)
+}
+
+fn interval_of(r: &Region) -> Interval {
+    match (r.start, r.end) {
+        (Some(s), Some(e)) => (pos(s)..=pos(e)).into(),
+        (Some(s), None) => (pos(s)..).into(),
+        (None, Some(e)) => (..=pos(e)).into(),
+        (None, None) => (..).into(),
+    }
+}
+
+fn noodles_region(r: &Region) -> noodles_core::Region {
+    noodles_core::Region::new(format!("sq{}", r.rid), interval_of(r))
+}
+
+static FILE_COUNTER: AtomicU64 = AtomicU64::new(0);
+
+/// Temp files of one case; removed on drop.
+struct TmpFiles(Vec<PathBuf>);
+
+impl TmpFiles {
+    fn path(&mut self, key: u64, ext: &str) -> PathBuf {
+        let n = FILE_COUNTER.fetch_add(1, Ordering::Relaxed);
+        let p = env().tmp_dir.join(format!("c04-{}-{key:016x}-{n}.{ext}", std::process::id()));
+        self.0.push(p.clone());
+        p
+    }
+}
+
+impl Drop for TmpFiles {
+    fn drop(&mut self) {
+        for p in &self.0 {
+            let _ = std::fs::remove_file(p);
+        }
+    }
+}
+
+enum Ix {
+    Linear(csi::binning_index::Index<LinearIndex>),
+    Binned(csi::Index),
+}
+
+impl Ix {
+    fn is_binned(&self) -> bool {
+        matches!(self, Ix::Binned(_))
+    }
+    fn min_offset(&self, rid: usize, start: u64) -> Option<u64> {
+        match self {
+            Ix::Linear(i) => i.reference_sequences().get(rid).map(|r| u64::from(r.min_offset(i.min_shift(), i.depth(), pos(start)))),
+            Ix::Binned(i) => i.reference_sequences().get(rid).map(|r| u64::from(r.min_offset(i.min_shift(), i.depth(), pos(start)))),
+        }
+    }
+    fn unplaced(&self) -> Option<u64> {
+        match self {
+            Ix::Linear(i) => i.unplaced_unmapped_record_count(),
+            Ix::Binned(i) => i.unplaced_unmapped_record_count(),
+        }
+    }
+}
+
+/// One record as noodles' plain reader sees it in a full scan (the read-tell loop of the indexers).
+#[derive(Clone, Debug)]
+struct ScanRec {
+    id: String,
+    rid: Option<usize>,
+    /// noodles' own span (alignment_start..alignment_end / variant_start..variant_end)
+    span: Option<(u64, u64)>,
+    flagged_unmapped: bool,
+    vstart: u64,
+    vend: u64,
+}
+
+enum Data {
+    Bam { bytes: Vec<u8>, header: sam::Header },
+    Vcf { bytes: Vec<u8>, header: vcf::Header },
+    Bcf { bytes: Vec<u8> },
+}
+
+fn bam_id(r: &bam::Record) -> String {
+    r.name().map(|n| n.to_string()).unwrap_or_default()
+}
+
+impl Data {
+    fn bytes(&self) -> &[u8] {
+        match self {
+            Data::Bam { bytes, .. } | Data::Vcf { bytes, .. } | Data::Bcf { bytes } => bytes,
+        }
+    }
+
+    /// Full scan with the plain reader, recording virtual positions before/after every record.
+    fn scan(&self) -> Result<Vec<ScanRec>, Vec<Fail>> {
+        let mut out = Vec::new();
+        match self {
+            Data::Bam { bytes, .. } => {
+                use sam::alignment::Record as _;
+                let mut r = bam::io::Reader::new(Cursor::new(&bytes[..]));
+                r.read_header().map_err(|e| e1("c04.scan-error", format!("BAM read_header: {e}")))?;
+                let mut rec = bam::Record::default();
+                let mut vstart = u64::from(r.get_ref().virtual_position());
+                loop {
+                    let n = r.read_record(&mut rec).map_err(|e| e1("c04.scan-error", format!("BAM read_record after {} records: {e}", out.len())))?;
+                    if n == 0 {
+                        break;
+                    }
+                    let vend = u64::from(r.get_ref().virtual_position());
+                    let rid = rec.reference_sequence_id().transpose().map_err(|e| e1("c04.scan-error", format!("reference_sequence_id: {e}")))?;
+                    let s = rec.alignment_start().transpose().map_err(|e| e1("c04.scan-error", format!("alignment_start: {e}")))?;
+                    let e = rec.alignment_end().transpose().map_err(|e| e1("c04.scan-error", format!("alignment_end: {e}")))?;
+                    let span = match (s, e) {
+                        (Some(s), Some(e)) => Some((usize::from(s) as u64, usize::from(e) as u64)),
+                        _ => None,
+                    };
+                    out.push(ScanRec { id: bam_id(&rec), rid, span, flagged_unmapped: rec.flags().is_unmapped(), vstart, vend });
+                    vstart = vend;
+                }
+            }
+            Data::Vcf { bytes, header } => {
+                use vcf::variant::Record as _;
+                let mut r = vcf::io::Reader::new(bgzf::io::Reader::new(Cursor::new(&bytes[..])));
+                let h = r.read_header().map_err(|e| e1("c04.scan-error", format!("VCF read_header: {e}")))?;
+                let mut rec = vcf::Record::default();
+                let mut vstart = u64::from(r.get_ref().virtual_position());
+                loop {
+                    let n = r.read_record(&mut rec).map_err(|e| e1("c04.scan-error", format!("VCF read_record after {} records: {e}", out.len())))?;
+                    if n == 0 {
+                        break;
+                    }
+                    let vend = u64::from(r.get_ref().virtual_position());
+                    let name = rec.reference_sequence_name().to_string();
+                    let rid = header.contigs().get_index_of(name.as_str());
+                    let s = rec.variant_start().transpose().map_err(|e| e1("c04.scan-error", format!("variant_start: {e}")))?;
+                    let e = rec.variant_end(&h).map_err(|e| e1("c04.scan-error", format!("variant_end: {e}")))?;
+                    let span = s.map(|s| (usize::from(s) as u64, usize::from(e) as u64));
+                    out.push(ScanRec { id: rec.ids().as_ref().to_string(), rid, span, flagged_unmapped: false, vstart, vend });
+                    vstart = vend;
+                }
+            }
+            Data::Bcf { bytes } => {
+                use vcf::variant::Record as _;
+                let mut r = bcf::io::Reader::new(Cursor::new(&bytes[..]));
+                let h = r.read_header().map_err(|e| e1("c04.scan-error", format!("BCF read_header: {e}")))?;
+                let mut rec = bcf::Record::default();
+                let mut vstart = u64::from(r.get_ref().virtual_position());
+                loop {
+                    let n = r.read_record(&mut rec).map_err(|e| e1("c04.scan-error", format!("BCF read_record after {} records: {e}", out.len())))?;
+                    if n == 0 {
+                        break;
+                    }
+                    let vend = u64::from(r.get_ref().virtual_position());
+                    let rid = rec.reference_sequence_id().map_err(|e| e1("c04.scan-error", format!("reference_sequence_id: {e}")))?;
+                    let s = rec.variant_start().transpose().map_err(|e| e1("c04.scan-error", format!("variant_start: {e}")))?;
+                    let e = rec.variant_end(&h).map_err(|e| e1("c04.scan-error", format!("variant_end: {e}")))?;
+                    let span = s.map(|s| (usize::from(s) as u64, usize::from(e) as u64));
+                    out.push(ScanRec { id: String::from_utf8_lossy(rec.ids().as_ref()).to_string(), rid: Some(rid), span, flagged_unmapped: false, vstart, vend });
+                    vstart = vend;
+                }
+            }
+        }
+        Ok(out)
+    }
+
+    /// Region query → record identities in the order returned.
+    fn query(&self, ix: &Ix, region: &Region) -> std::io::Result<Vec<String>> {
+        let reg = noodles_region(region);
+        let mut ids = Vec::new();
+        match self {
+            Data::Bam { bytes, header } => {
+                let mut r = bam::io::Reader::new(Cursor::new(&bytes[..]));
+                r.read_header()?;
+                let q = match ix {
+                    Ix::Linear(i) => r.query(header, i, &reg)?,
+                    Ix::Binned(i) => r.query(header, i, &reg)?,
+                };
+                for rec in q.records() {
+                    ids.push(bam_id(&rec?));
+                }
+            }
+            Data::Vcf { bytes, .. } => {
+                let mut r = vcf::io::Reader::new(bgzf::io::Reader::new(Cursor::new(&bytes[..])));
+                let h = r.read_header()?;
+                let q = match ix {
+                    Ix::Linear(i) => r.query(&h, i, &reg)?,
+                    Ix::Binned(i) => r.query(&h, i, &reg)?,
+                };
+                for rec in q.records() {
+                    ids.push(rec?.ids().as_ref().to_string());
+                }
+            }
+            Data::Bcf { bytes } => {
+                let mut r = bcf::io::Reader::new(Cursor::new(&bytes[..]));
+                let h = r.read_header()?;
+                let q = match ix {
+                    Ix::Linear(i) => r.query(&h, i, &reg)?,
+                    Ix::Binned(i) => r.query(&h, i, &reg)?,
+                };
+                for rec in q.records() {
+                    ids.push(String::from_utf8_lossy(rec?.ids().as_ref()).to_string());
+                }
+            }
+        }
+        Ok(ids)
+    }
+
+    fn query_unmapped(&self, ix: &Ix) -> Option<std::io::Result<Vec<(String, bool, bool)>>> {
+        match self {
+            Data::Bam { bytes, .. } => Some((|| {
+                let mut r = bam::io::Reader::new(Cursor::new(&bytes[..]));
+                r.read_header()?;
+                let mut out = Vec::new();
+                let it: Box<dyn Iterator<Item = std::io::Result<bam::Record>>> = match ix {
+                    Ix::Linear(i) => Box::new(r.query_unmapped(i)?),
+                    Ix::Binned(i) => Box::new(r.query_unmapped(i)?),
+                };
+                for rec in it {
+                    let rec = rec?;
+                    out.push((bam_id(&rec), rec.flags().is_unmapped(), rec.reference_sequence_id().is_none()));
+                }
+                Ok(out)
+            })()),
+            _ => None,
+        }
+    }
+}
+
+/// The read-tell-add loop of `bam::fs::index`, with a caller-chosen geometry (public API only).
+fn index_bam_custom(path: &std::path::Path, g: Geometry) -> std::io::Result<csi::Index> {
+    use sam::alignment::Record as _;
+    let mut reader = bam::io::Reader::new(std::fs::File::open(path)?);
+    let header = reader.read_header()?;
+    let mut record = bam::Record::default();
+    let mut indexer = Indexer::<BinnedIndex>::new(g.min_shift, g.depth);
+    let mut start_position = reader.get_ref().virtual_position();
+    while reader.read_record(&mut record)? != 0 {
+        let end_position = reader.get_ref().virtual_position();
+        let chunk = Chunk::new(start_position, end_position);
+        let ctx = match (record.reference_sequence_id().transpose()?, record.alignment_start().transpose()?, record.alignment_end().transpose()?) {
+            (Some(id), Some(start), Some(end)) => Some((id, start, end, !record.flags().is_unmapped())),
+            _ => None,
+        };
+        indexer.add_record(ctx, chunk)?;
+        start_position = end_position;
+    }
+    Ok(indexer.build(header.reference_sequences().len()))
+}
+
+/// The read-tell-add loop of `bcf::fs::index`, with a caller-chosen geometry.
+fn index_bcf_custom(path: &std::path::Path, g: Geometry) -> std::io::Result<csi::Index> {
+    use vcf::variant::Record as _;
+    let mut reader = bcf::io::Reader::new(std::fs::File::open(path)?);
+    let header = reader.read_header()?;
+    let mut indexer = Indexer::<BinnedIndex>::new(g.min_shift, g.depth);
+    let mut record = bcf::Record::default();
+    let mut start_position = reader.get_ref().virtual_position();
+    while reader.read_record(&mut record)? != 0 {
+        let end_position = reader.get_ref().virtual_position();
+        let chunk = Chunk::new(start_position, end_position);
+        let id = record.reference_sequence_id()?;
+        let start = record.variant_start().transpose()?.ok_or_else(|| std::io::Error::new(std::io::ErrorKind::InvalidData, "missing variant start"))?;
+        let end = record.variant_end(&header)?;
+        indexer.add_record(Some((id, start, end, true)), chunk)?;
+        start_position = end_position;
+    }
+    Ok(indexer.build(header.contigs().len()))
+}
+
+fn kind_name(k: Kind) -> &'static str {
+    match k {
+        Kind::Bai => "bai",
+        Kind::CsiBcf => "csi-bcf",
+        Kind::Tabix => "tabix",
+        Kind::CsiBam => "csi-bam",
+        Kind::CsiBcfCustom => "csi-bcf-custom",
+    }
+}
+
+/// `got` ⊆ `want` as a subsequence → the omitted elements; None when `got` is not a subsequence.
+fn omitted_subsequence<'a>(got: &[String], want: &'a [String]) -> Option<Vec<&'a String>> {
+    let mut om = Vec::new();
+    let mut gi = 0;
+    for w in want {
+        if gi < got.len() && &got[gi] == w {
+            gi += 1;
+        } else {
+            om.push(w);
+        }
+    }
+    if gi == got.len() { Some(om) } else { None }
+}
+
+/// "earlier long record, later short record in the same leaf window": a record assigned to a leaf
+/// bin that is preceded (file order, same reference) by a record assigned above leaf level whose span
+/// reaches into that leaf window.
+fn has_long_before_short(truth: &[Truth], g: Geometry) -> bool {
+    let (ms, d) = (g.min_shift as u32, g.depth as u32);
+    // running max end of above-leaf records per reference
+    let mut max_end_above: std::collections::BTreeMap<usize, u64> = Default::default();
+    for t in truth {
+        let (Some(rid), Some((s, e))) = (t.rid, t.span) else { continue };
+        let bin = binning::reg2bin_1based(s, e, ms, d);
+        let leaf = binning::bin_level(bin, d) == Some(d);
+        if leaf {
+            let window_start = ((s - 1) >> ms << ms) + 1;
+            if max_end_above.get(&rid).is_some_and(|&m| m >= window_start) {
+                return true;
+            }
+        } else {
+            let m = max_end_above.entry(rid).or_insert(0);
+            *m = (*m).max(e);
+        }
+    }
+    false
+}
+
+/// The known CSI defect, as a predicate. `model` is what the pinned scheme stores for one reference:
+/// bin → smallest chunk start of the records *assigned* to that bin (rebuilt from the full scan
+/// and the oracle's reg2bin). The failure belongs to the known class iff
+///  * noodles' `min_offset(region start)` is exactly what that scheme prescribes — in memory: the value
+///    of the nearest populated ancestor-or-self bin `c1` of the start's leaf; from a file: the minimum
+///    over the contiguous populated ancestors of `c1` (what `first_record_start_position` writes);
+///  * every omitted record ends at or before that offset (it was pruned by it), and
+///  * none of them is assigned to `c1` itself: it is held in a strict ancestor of `c1`
+///    ("spanning-record") or in a bin outside the ancestor chain of the start ("later-record").
+/// Anything else that loses a record through `min_offset` gets an unknown signature.
+fn classify_known_csi(variant: &str, g: Geometry, start: u64, model: &std::collections::BTreeMap<u64, u64>, noodles_m: u64, omitted: &[(u64, u64)]) -> Option<&'static str> {
+    let (ms, d) = (g.min_shift as u32, g.depth as u32);
+    let mut chain = vec![binning::reg2bin_1based(start, start, ms, d)];
+    while let Some(p) = binning::parent(*chain.last()?) {
+        chain.push(p);
+    }
+    let k = chain.iter().position(|b| model.contains_key(b))?;
+    let c1 = chain[k];
+    let mut expected = *model.get(&c1)?;
+    if variant == "file" {
+        for b in &chain[k + 1..] {
+            match model.get(b) {
+                Some(&v) => expected = expected.min(v),
+                None => break,
+            }
+        }
+    }
+    if noodles_m != expected || omitted.is_empty() {
+        return None;
+    }
+    let mut spanning = false;
+    for &(rbin, vend) in omitted {
+        if vend > noodles_m || rbin == c1 {
+            return None;
+        }
+        if chain.contains(&rbin) {
+            // populated and on the chain, not c1 ⇒ strictly above c1
+            if chain.iter().position(|b| *b == rbin)? < k {
+                return None;
+            }
+            spanning = true;
+        }
+    }
+    Some(if spanning { "spanning-record" } else { "later-record" })
+}
+
+fn bin_model(g: Geometry, recs: impl Iterator<Item = (Option<usize>, Option<(u64, u64)>, u64)>, rid: usize) -> std::collections::BTreeMap<u64, u64> {
+    let mut m = std::collections::BTreeMap::new();
+    for (r, span, vstart) in recs {
+        if r == Some(rid) {
+            if let Some((s, e)) = span {
+                let b = binning::reg2bin_1based(s, e, g.min_shift as u32, g.depth as u32);
+                let v = m.entry(b).or_insert(vstart);
+                if vstart < *v {
+                    *v = vstart;
+                }
+            }
+        }
+    }
+    m
+}
+
+fn describe_region(r: &Region) -> String {
+    format!("sq{}:{}-{}", r.rid, r.start.map(|x| x.to_string()).unwrap_or("*".into()), r.end.map(|x| x.to_string()).unwrap_or("*".into()))
+}
+
+// ------------------------------------------------------------------------------------------------
+// files
+// ------------------------------------------------------------------------------------------------
+
+fn check_files(c: &Case) -> Verdict {
+    let g = c.set.geom;
+    let key = key_of(c);
+    let mut tmp = TmpFiles(Vec::new());
+    let is_vcf_like = !matches!(c.kind, Kind::Bai | Kind::CsiBam);
+    let v45 = is_vcf_like && c.version == VcfVersion::V45;
+
+    // 1. realise
+    let (sorted, truth): (Vec<RecSpec>, Vec<Truth>) = if is_vcf_like { sorted::vcf_truth(&c.set) } else { sorted::bam_truth(&c.set) };
+    let data = match c.kind {
+        Kind::Bai | Kind::CsiBam => Data::Bam {
+            bytes: sorted::write_bam(&c.set).map_err(|e| e1("c04.write-error.bam", format!("writing the BAM failed: {e}")))?,
+            header: sorted::sam_header(&c.set).map_err(|e| e1("c04.write-error.bam", e))?,
+        },
+        Kind::Tabix => Data::Vcf { bytes: sorted::write_vcf_gz(&c.set, c.version).map_err(|e| e1("c04.write-error.vcf", format!("writing the VCF failed: {e}")))?, header: sorted::vcf_header(&c.set, c.version) },
+        Kind::CsiBcf | Kind::CsiBcfCustom => Data::Bcf { bytes: sorted::write_bcf(&c.set, c.version).map_err(|e| e1("c04.write-error.bcf", format!("writing the BCF failed: {e}")))? },
+    };
+    let ext = match c.kind {
+        Kind::Bai | Kind::CsiBam => "bam",
+        Kind::Tabix => "vcf.gz",
+        _ => "bcf",
+    };
+    let path = tmp.path(key, ext);
+    std::fs::write(&path, data.bytes()).map_err(|e| e1("c04.tmp-io", format!("cannot write {}: {e}", path.display())))?;
+
+    // 2. index in memory, and via a file
+    // known class: BCF + fileformat 4.5 + an INFO SVLEN value that needs 16/32 bits (the BCF reader
+    // decodes a one-element int16/int32 vector as a scalar and variant_end rejects it)
+    let svlen_wide = v45 && matches!(c.kind, Kind::CsiBcf | Kind::CsiBcfCustom) && sorted.iter().any(|r| sorted::vcf_fields(r).1.is_some() && r.len > 127);
+    let bcf_index_sig = |generic: &str, e: &std::io::Error| -> String {
+        if svlen_wide && e.to_string().contains("SVLEN") { "c04.bcf.v45.svlen-wide-int-decoded-as-scalar".to_string() } else { generic.to_string() }
+    };
+    let mem: Ix = match c.kind {
+        Kind::Bai => Ix::Linear(bam::fs::index(&path).map_err(|e| e1("c04.index-error.bai", format!("bam::fs::index: {e}")))?),
+        Kind::CsiBcf => Ix::Binned(bcf::fs::index(&path).map_err(|e| e1(&bcf_index_sig("c04.index-error.csi-bcf", &e), format!("bcf::fs::index: {e}")))?),
+        Kind::Tabix => Ix::Linear(vcf::fs::index(&path).map_err(|e| e1("c04.index-error.tabix", format!("vcf::fs::index: {e}")))?),
+        Kind::CsiBam => Ix::Binned(index_bam_custom(&path, g).map_err(|e| e1("c04.index-error.csi-bam", format!("Indexer loop on BAM: {e}")))?),
+        Kind::CsiBcfCustom => Ix::Binned(index_bcf_custom(&path, g).map_err(|e| e1(&bcf_index_sig("c04.index-error.csi-bcf-custom", &e), format!("Indexer loop on BCF: {e}")))?),
+    };
+    let ipath = tmp.path(key, "idx");
+    let file: Ix = match (&mem, c.kind) {
+        (Ix::Linear(i), Kind::Bai) => {
+            bam::bai::fs::write(&ipath, i).map_err(|e| e1("c04.index-write-error.bai", format!("{e}")))?;
+            Ix::Linear(bam::bai::fs::read(&ipath).map_err(|e| e1("c04.index-read-error.bai", format!("{e}")))?)
+        }
+        (Ix::Linear(i), _) => {
+            tabix::fs::write(&ipath, i).map_err(|e| e1("c04.index-write-error.tabix", format!("{e}")))?;
+            Ix::Linear(tabix::fs::read(&ipath).map_err(|e| e1("c04.index-read-error.tabix", format!("{e}")))?)
+        }
+        (Ix::Binned(i), _) => {
+            csi::fs::write(&ipath, i).map_err(|e| e1("c04.index-write-error.csi", format!("{e}")))?;
+            Ix::Binned(csi::fs::read(&ipath).map_err(|e| e1("c04.index-read-error.csi", format!("{e}")))?)
+        }
+    };
+
+    // 3. full scan (noodles' reader + its own span functions), joined with the ground truth
+    let scan = data.scan()?;
+    let mut fails = Fails::new();
+    if scan.len() != truth.len() {
+        return fail1("c04.scan.count", format!("wrote {} records, a full scan returns {}", truth.len(), scan.len()));
+    }
+    for (t, s) in truth.iter().zip(&scan) {
+        if s.id != sorted::ident(t.idx) || s.rid != t.rid || s.flagged_unmapped != t.flagged_unmapped {
+            return fail1("c04.scan.identity", format!("record #{} read back as id {:?} on reference {:?} (expected {:?} on {:?})", t.idx, s.id, s.rid, sorted::ident(t.idx), t.rid));
+        }
+        if !v45 && s.span != t.span {
+            fails.push(if is_vcf_like { "c04.span.vcf" } else { "c04.span.bam" }, format!("record {} ({:?}): noodles span {:?}, specification span {:?}", s.id, sorted.get(t.idx), s.span, t.span));
+        }
+    }
+    let blocks_with_records: std::collections::BTreeSet<u64> = scan.iter().map(|s| s.vstart >> 16).collect();
+    let multi_block = blocks_with_records.len() >= 2;
+    let above_leaf = truth.iter().any(|t| t.span.is_some_and(|(s, e)| binning::bin_level(binning::reg2bin_1based(s, e, g.min_shift as u32, g.depth as u32), g.depth as u32) != Some(g.depth as u32)));
+    let lbs = has_long_before_short(&truth, g);
+
+    // 4. regions
+    let span_list: Vec<(u64, u64)> = truth.iter().filter_map(|t| t.span).collect();
+    let mut any_nonempty = false;
+    let mut labels: Vec<&'static str> = Vec::new();
+    let mut n_queries = 0u64;
+    for spec in &c.regions {
+        let region = spec.resolve(&c.set, &sorted, &span_list);
+        let empty_interval = region.is_empty_interval();
+        let ref_has_records = truth.iter().any(|t| t.rid == Some(region.rid));
+        let rq = (region.start, region.end);
+        // primary: generator truth; secondary: noodles' own spans from the scan
+        let want_primary: Vec<String> = truth.iter().filter(|t| t.rid == Some(region.rid) && t.span.is_some_and(|s| spans::intersects(s, rq))).map(|t| sorted::ident(t.idx)).collect();
+        let want_secondary: Vec<String> = scan.iter().filter(|s| s.rid == Some(region.rid) && s.span.is_some_and(|sp| spans::intersects(sp, rq))).map(|s| s.id.clone()).collect();
+        for (variant, ix) in [("mem", &mem), ("file", &file)] {
+            n_queries += 1;
+            let got = match data.query(ix, &region) {
+                Ok(v) => v,
+                Err(e) => {
+                    if c.kind == Kind::Tabix && !ref_has_records {
+                        // the tabix name list only holds contigs that have records: naming another
+                        // contig of the VCF header is reported as an error; the property is silent
+                        if !labels.contains(&"tabix-empty-contig-error") {
+                            labels.push("tabix-empty-contig-error");
+                        }
+                        continue;
+                    }
+                    fails.push(format!("c04.{}.{variant}.query-error", kind_name(c.kind)), format!("query {} failed: {e}", describe_region(&region)));
+                    continue;
+                }
+            };
+            if empty_interval {
+                // start > end: only sanity (records of the named reference, no duplicates)
+                let mut seen = std::collections::BTreeSet::new();
+                for id in &got {
+                    let ok = scan.iter().any(|s| &s.id == id && s.rid == Some(region.rid));
+                    if !ok || !seen.insert(id.clone()) {
+                        fails.push(format!("c04.{}.{variant}.empty-interval", kind_name(c.kind)), format!("query {} returned {:?}", describe_region(&region), got));
+                        break;
+                    }
+                }
+                continue;
+            }
+            let (want, relation) = if v45 { (&want_secondary, "scan+filter with noodles' spans") } else { (&want_primary, "generator ground truth") };
+            if &got != want {
+                // classify
+                let mut sig = None;
+                if ix.is_binned() {
+                    if let Some(om) = omitted_subsequence(&got, want) {
+                        if !om.is_empty() {
+                            let start = region.start.unwrap_or(1);
+                            let m = ix.min_offset(region.rid, start).unwrap_or(0);
+                            let recs: Vec<&ScanRec> = om.iter().filter_map(|id| scan.iter().find(|s| &&s.id == id)).collect();
+                            if recs.len() == om.len() {
+                                let model = bin_model(g, scan.iter().map(|s| (s.rid, s.span, s.vstart)), region.rid);
+                                let omitted: Vec<(u64, u64)> = recs.iter().filter_map(|s| s.span.map(|(a, b)| (binning::reg2bin_1based(a, b, g.min_shift as u32, g.depth as u32), s.vend))).collect();
+                                if omitted.len() == recs.len() {
+                                    if let Some(class) = classify_known_csi(variant, g, start, &model, m, &omitted) {
+                                        sig = Some(format!("c04.csi.{variant}.min-offset-prunes.{class}"));
+                                    }
+                                }
+                            }
+                        }
+                    }
+                }
+                let sig = sig.unwrap_or_else(|| {
+                    let how = match omitted_subsequence(&got, want) {
+                        Some(_) => "omission",
+                        None => {
+                            if omitted_subsequence(want, &got).is_some() {
+                                "extra"
+                            } else {
+                                "mismatch"
+                            }
+                        }
+                    };
+                    format!("c04.{}.{variant}.{how}", kind_name(c.kind))
+                });
+                let second = if !v45 && &got == &want_secondary { " (but equal to scan+filter with noodles' own spans: a span defect, not an index defect)" } else { "" };
+                fails.push(sig, format!("{} index ({variant}) ({},{}): query {} returned {:?}, {relation} gives {:?}{second}", kind_name(c.kind), g.min_shift, g.depth, describe_region(&region), trunc(&format!("{got:?}"), 400), trunc(&format!("{want:?}"), 400)));
+            } else if !v45 && got != want_secondary {
+                fails.push(format!("c04.{}.{variant}.secondary", kind_name(c.kind)), format!("query {} equals the ground truth but not scan+filter with noodles' spans {:?}", describe_region(&region), want_secondary));
+            }
+        }
+        if !empty_interval && !want_primary.is_empty() {
+            any_nonempty = true;
+        }
+        let l: &'static str = match (region.start, region.end) {
+            (None, None) => "region-whole-reference",
+            (None, Some(_)) => "region-unbounded-start",
+            (Some(_), None) => "region-unbounded-end",
+            (Some(s), Some(e)) if s == e => "region-point",
+            (Some(s), Some(e)) if s > e => "region-empty-interval",
+            (Some(s), Some(e)) if (s - 1) % g.leaf() == 0 && e % g.leaf() == 0 => "region-bin-aligned",
+            _ => "region-interval",
+        };
+        if !labels.contains(&l) {
+            labels.push(l);
+        }
+        if !ref_has_records && !labels.contains(&"region-on-empty-reference") {
+            labels.push("region-on-empty-reference");
+        }
+    }
+
+    // 5. unmapped query (BAM)
+    let tail: Vec<String> = truth.iter().filter(|t| t.rid.is_none()).map(|t| sorted::ident(t.idx)).collect();
+    let mut placed_unmapped_returned = false;
+    for (variant, ix) in [("mem", &mem), ("file", &file)] {
+        if let Some(res) = data.query_unmapped(ix) {
+            n_queries += 1;
+            match res {
+                Err(e) => fails.push(format!("c04.{}.{variant}.unmapped.query-error", kind_name(c.kind)), format!("query_unmapped failed: {e}")),
+                Ok(got) => {
+                    if let Some(bad) = got.iter().find(|(_, flagged, _)| !flagged) {
+                        fails.push(format!("c04.{}.{variant}.unmapped.not-flagged", kind_name(c.kind)), format!("query_unmapped returned {} which is not flagged unmapped", bad.0));
+                    }
+                    let unplaced: Vec<String> = got.iter().filter(|(_, _, unplaced)| *unplaced).map(|(id, _, _)| id.clone()).collect();
+                    if unplaced != tail {
+                        fails.push(format!("c04.{}.{variant}.unmapped.tail", kind_name(c.kind)), format!("query_unmapped returned the unplaced records {unplaced:?}; the file's unplaced unmapped tail is {tail:?}"));
+                    }
+                    if got.iter().any(|(_, _, unplaced)| !*unplaced) {
+                        placed_unmapped_returned = true;
+                    }
+                }
+            }
+            if ix.unplaced() != Some(tail.len() as u64) {
+                fails.push(format!("c04.{}.{variant}.unplaced-count", kind_name(c.kind)), format!("index says {:?} unplaced unmapped records, the file has {}", ix.unplaced(), tail.len()));
+            }
+        }
+    }
+
+    let nontrivial = any_nonempty && (multi_block || above_leaf);
+    let mut p = Pass::new(nontrivial, key)
+        .evals(n_queries.max(1))
+        .label(kind_name(c.kind))
+        .label_if(lbs, "long-before-short-in-leaf")
+        .label_if(lbs && !mem.is_binned(), "linear-index+long-before-short")
+        .label_if(lbs && mem.is_binned(), "binned-index+long-before-short")
+        .label_if(multi_block, "records-in>=2-blocks")
+        .label_if(blocks_with_records.len() >= 5, "records-in>=5-blocks")
+        .label_if(above_leaf, "record-above-leaf")
+        .label_if(!tail.is_empty(), "unplaced-tail")
+        .label_if(truth.iter().any(|t| t.flagged_unmapped && t.rid.is_some()), "placed-unmapped")
+        .label_if(placed_unmapped_returned, "query_unmapped-returns-placed-unmapped")
+        .label_if(v45, "vcf4.5-secondary-only")
+        .label_if(g != Geometry::DEFAULT, "non-default-geometry")
+        .label_if(truth.len() > 100, "records>100")
+        .label_if(truth.is_empty(), "no-records")
+        .label_if((0..c.set.n_ref as usize).any(|r| !truth.iter().any(|t| t.rid == Some(r))), "has-empty-reference")
+        .label_if(truth.iter().filter_map(|t| t.rid).collect::<std::collections::BTreeSet<_>>().len() >= 2, "records-on>=2-references");
+    for l in labels {
+        p = p.label(l);
+    }
+    fails.finish(p)
+}
+
+// ------------------------------------------------------------------------------------------------
+// synthetic (index level)
+// ------------------------------------------------------------------------------------------------
+
+#[derive(Clone, Debug, Serialize, Deserialize)]
+pub struct SynCase {
+    pub binned: bool,
+    pub set: SortedSet,
+    pub regions: Vec<RegionSpec>,
+}
+
+fn syn_strategy(tier: Tier) -> BoxedStrategy<SynCase> {
+    let max_recs = tier.pick(30usize, 120usize);
+    any::<bool>()
+        .prop_flat_map(move |binned| {
+            let geoms: &'static [Geometry] = if binned { &sorted::GEOMETRIES } else { &DEFAULT_ONLY };
+            (Just(binned), sorted::sorted_set(geoms, max_recs))
+        })
+        .prop_flat_map(|(binned, set)| {
+            let g = set.geom;
+            (Just(binned), Just(set), sorted::region_specs(g, 16))
+        })
+        .prop_map(|(binned, set, regions)| SynCase { binned, set, regions })
+        .boxed()
+}
+
+fn cov_contains(cov: &[(u64, u64)], c: (u64, u64)) -> bool {
+    cov.iter().any(|&(a, b)| a <= c.0 && c.1 <= b)
+}
+
+fn check_synthetic(c: &SynCase) -> Verdict {
+    let g = c.set.geom;
+    let (sorted, truth) = sorted::bam_truth(&c.set);
+    // consecutive chunks; record i occupies [at_i, at_{i+1})
+    let mut at = 3u64 << 16;
+    let chunks: Vec<(u64, u64)> = truth
+        .iter()
+        .map(|t| {
+            let s = at;
+            at += 40 + (t.idx as u64 * 37) % 300;
+            (s, at)
+        })
+        .collect();
+    let add = |ctx: Option<(usize, Position, Position, bool)>, ch: (u64, u64), lin: &mut Indexer<LinearIndex>, bin: &mut Indexer<BinnedIndex>| -> std::io::Result<()> {
+        let chunk = Chunk::new(bgzf::VirtualPosition::from(ch.0), bgzf::VirtualPosition::from(ch.1));
+        if c.binned { bin.add_record(ctx, chunk) } else { lin.add_record(ctx, chunk) }
+    };
+    let mut lin = Indexer::<LinearIndex>::default();
+    let mut bin = Indexer::<BinnedIndex>::new(g.min_shift, g.depth);
+    for (t, ch) in truth.iter().zip(&chunks) {
+        let ctx = match (t.rid, t.span) {
+            (Some(rid), Some((s, e))) => Some((rid, pos(s), pos(e), !t.flagged_unmapped)),
+            _ => None,
+        };
+        add(ctx, *ch, &mut lin, &mut bin).map_err(|e| e1("c04.syn.indexer-error", format!("add_record: {e}")))?;
+    }
+    let mem = if c.binned { Ix::Binned(bin.build(c.set.n_ref as usize)) } else { Ix::Linear(lin.build(c.set.n_ref as usize)) };
+    let file = match &mem {
+        Ix::Binned(i) => {
+            let mut w = csi::io::Writer::new(Vec::new());
+            w.write_index(i).map_err(|e| e1("c04.syn.index-write-error", format!("{e}")))?;
+            let buf = w.into_inner().finish().map_err(|e| e1("c04.syn.index-write-error", format!("{e}")))?;
+            Ix::Binned(csi::io::Reader::new(&buf[..]).read_index().map_err(|e| e1("c04.syn.index-read-error", format!("{e}")))?)
+        }
+        Ix::Linear(i) => {
+            let mut buf = Vec::new();
+            bam::bai::io::Writer::new(&mut buf).write_index(i).map_err(|e| e1("c04.syn.index-write-error", format!("{e}")))?;
+            Ix::Linear(bam::bai::io::Reader::new(&buf[..]).read_index().map_err(|e| e1("c04.syn.index-read-error", format!("{e}")))?)
+        }
+    };
+    let span_list: Vec<(u64, u64)> = truth.iter().filter_map(|t| t.span).collect();
+    let mut fails = Fails::new();
+    let mut any_nonempty = false;
+    let mut n_q = 0u64;
+    for spec in &c.regions {
+        let region = spec.resolve(&c.set, &sorted, &span_list);
+        if region.is_empty_interval() {
+            continue;
+        }
+        let rq = (region.start, region.end);
+        let need: Vec<usize> = truth.iter().filter(|t| t.rid == Some(region.rid) && t.span.is_some_and(|s| spans::intersects(s, rq))).map(|t| t.idx).collect();
+        any_nonempty |= !need.is_empty();
+        for (variant, ix) in [("mem", &mem), ("file", &file)] {
+            n_q += 1;
+            let res = match ix {
+                Ix::Linear(i) => i.query(region.rid, interval_of(&region)),
+                Ix::Binned(i) => i.query(region.rid, interval_of(&region)),
+            };
+            let answer: Vec<(u64, u64)> = match res {
+                Ok(v) => v.iter().map(|ch| (u64::from(ch.start()), u64::from(ch.end()))).collect(),
+                Err(e) => {
+                    fails.push(format!("c04.syn.{variant}.query-error"), format!("query {} failed: {e}", describe_region(&region)));
+                    continue;
+                }
+            };
+            let missing: Vec<usize> = need.iter().copied().filter(|&i| !cov_contains(&answer, chunks[i])).collect();
+            if !missing.is_empty() {
+                let start = region.start.unwrap_or(1);
+                let m = ix.min_offset(region.rid, start).unwrap_or(0);
+                let known = if ix.is_binned() {
+                    let model = bin_model(g, truth.iter().map(|t| (t.rid, t.span, chunks[t.idx].0)), region.rid);
+                    let omitted: Vec<(u64, u64)> = missing.iter().filter_map(|&i| truth[i].span.map(|(a, b)| (binning::reg2bin_1based(a, b, g.min_shift as u32, g.depth as u32), chunks[i].1))).collect();
+                    classify_known_csi(variant, g, start, &model, m, &omitted)
+                } else {
+                    None
+                };
+                let sig = match known {
+                    Some(class) => format!("c04.csi.{variant}.min-offset-prunes.{class}"),
+                    None => format!("c04.syn.{}.{variant}.chunk-not-covered", if ix.is_binned() { "binned" } else { "linear" }),
+                };
+                let i0 = missing[0];
+                fails.push(
+                    sig,
+                    format!(
+                        "({},{}) {} index ({variant}): query {} → chunks {:?} (min_offset {m}); record #{i0} span {:?} chunk {:?} intersects the region but is not covered ({} such records)",
+                        g.min_shift,
+                        g.depth,
+                        if ix.is_binned() { "binned" } else { "linear" },
+                        describe_region(&region),
+                        trunc(&format!("{answer:?}"), 300),
+                        truth[i0].span,
+                        chunks[i0],
+                        missing.len()
+                    ),
+                );
+            }
+        }
+    }
+    let above_leaf = truth.iter().any(|t| t.span.is_some_and(|(s, e)| binning::bin_level(binning::reg2bin_1based(s, e, g.min_shift as u32, g.depth as u32), g.depth as u32) != Some(g.depth as u32)));
+    fails.finish(
+        Pass::new(any_nonempty && truth.len() >= 2, key_of(c))
+            .evals(n_q.max(1))
+            .label(if c.binned { "binned" } else { "linear" })
+            .label_if(has_long_before_short(&truth, g), "long-before-short-in-leaf")
+            .label_if(has_long_before_short(&truth, g) && !c.binned, "linear-index+long-before-short")
+            .label_if(above_leaf, "record-above-leaf")
+            .label_if(g != Geometry::DEFAULT, "non-default-geometry"),
+    )
+}
+
+// keep the BGZF walker linked for the block statistics helper below
+#[allow(dead_code)]
+fn data_blocks(bytes: &[u8]) -> usize {
+    bgzf_walk::walk(bytes).map(|m| m.iter().filter(|b| !b.data.is_empty()).count()).unwrap_or(0)
+}
 
 pub fn property() -> Property {
-    Property { id: "C04", level: "exploration", rule: "", assumptions: vec![], subs: vec![], max_parallel: 16 }
+    Property {
+        id: "C04",
+        level: "exploration",
+        rule: "coordinate-sorted record sets built from spans (edge-dense starts, short / window-crossing / very long spans, explicit long-before-short shapes, several references incl. empty ones, placed- and unplaced-unmapped reads) × block layout script × index kind {BAI, CSI(BCF), tabix, CSI(min_shift,depth) on BAM and BCF} × {index in memory, index written to a file and read back} × ≤12 regions (record-edge relative, bin aligned, whole reference, unbounded, beyond the end)",
+        assumptions: vec![
+            "oracle::spans encodes the SAM (POS + reference-consuming CIGAR length, ≥ 1) and VCF < 4.5 (INFO END else POS + len(REF) − 1) span rules correctly".into(),
+            "the noodles BAM/VCF/BCF writers and plain readers are correct for the minimal records used (checked: a full scan returns the written identities, references and spans)".into(),
+            "fileformat 4.5 files are only compared with scan+filter using noodles' own variant_end".into(),
+            "an error (rather than an empty answer) for a tabix query naming a header contig without records is not judged".into(),
+            "query_unmapped may additionally return placed reads flagged unmapped (the statement only excludes records not flagged unmapped)".into(),
+        ],
+        subs: vec![
+            sub(
+                "files",
+                "non-trivial = some region with a non-empty expected answer and (records in ≥2 BGZF blocks or a record assigned above leaf level); one evaluation = one query",
+                files_strategy,
+                check_files,
+                24_000,
+                480_000,
+            )
+            .boxed(),
+            sub("synthetic", "non-trivial = ≥2 records and some region with a non-empty expected answer; one evaluation = one index query", syn_strategy, check_synthetic, 200_000, 4_000_000).boxed(),
+        ],
+        max_parallel: 16,
+    }
 }
